@@ -323,7 +323,7 @@ class PDFContentParser(PSStackParser[Union[PSKeyword, PDFStream]]):
                     data += self.buf[self.charpos :]
                     self.charpos = len(self.buf)
         data = data[: -(len(target) + 1)]  # strip the last part
-        data = re.sub(rb"(\x0d\x0a|[\x0d\x0a])$", b"", data)
+        data = re.sub(rb"(\x0d\x0a|[\x0d\x0a])\Z", b"", data)
         return (pos, data)
 
     def flush(self) -> None:
